@@ -248,16 +248,16 @@ fn mutate<T: serde::Serialize + serde::de::DeserializeOwned>(t: &Table, r: T, c:
         }
     }
     for ptr in ptrs {
-        let alt = crate::rsm::pick(c, &[0u8, 1, 2, 3, 4]);
+        let alt = crate::rsm::pick(c, &[0u8, 1, 2, 3, 4, 5]);
         if alt == 0 {
             continue;
         }
         if let Some(slot) = v.pointer_mut(&ptr) {
             let new = match &*slot {
-                Value::Number(_) => json!(match alt { 1 => 1, 2 => 200, 3 => 0, _ => 255 }),
+                Value::Number(_) => json!(match alt { 1 => 1, 2 => 200, 3 => 0, 4 => 255, _ => 127 }),
                 Value::Bool(b) => json!(!*b),
                 // (text with blanks, a tab and a line end at its edges and non-ASCII inside: the view must not tidy it)
-                Value::String(_) => json!(match alt { 1 => "Zq", 2 => "", 3 => " \t padded  \n", _ => "Zürich 東京" }),
+                Value::String(_) => json!(match alt { 1 => "Zq", 2 => "", 3 => " \t padded  \n", 4 => "Zürich 東京", _ => "\"quoted\"" }),
                 _ => continue,
             };
             if *slot != new {
